@@ -4,7 +4,8 @@
 A copy of /verif (with its build output) lives in /root/scratch/vm, a worktree of /repo HEAD in
 /root/scratch/mrepo; both are removed afterwards unless KEEP=1."""
 import sys, os, subprocess, shutil, json
-VM = "/root/scratch/vm"; MR = "/root/scratch/mrepo"
+SLOT = os.environ.get("MUT_SLOT", "")
+VM = "/root/scratch/vm" + SLOT; MR = "/root/scratch/mrepo" + SLOT
 def sh(cmd, **kw): return subprocess.run(cmd, shell=True, stdout=subprocess.PIPE, stderr=subprocess.STDOUT, **kw)
 def main():
     patch = sys.argv[1]; props = sys.argv[2:]
@@ -15,6 +16,7 @@ def main():
         r = sh("git -C %s diff %s %s^ | git -C %s apply" % (MR, c, c, MR))
     else:
         r = sh("git -C %s apply %s" % (MR, os.path.abspath(patch)))
+        if r.returncode != 0: r = sh("git -C %s apply -3 %s" % (MR, os.path.abspath(patch)))
     if r.returncode != 0: print("APPLY FAILED", r.stdout.decode()); return 2
     env = dict(os.environ, GOFLAGS="-mod=mod", GOPROXY="off", GOSUMDB="off", GOTOOLCHAIN="local")
     t = sh("cd %s && go build ./... && go test -vet=off -count=1 ./... 2>&1 | tail -4" % MR, env=env)
